@@ -486,6 +486,90 @@ func runC09(c *Ctx) {
 
 	c.rule("C09.O3", "a rescan that (re)subscribes misses no reorganisation: "+backlogDoc, func() { c.backlogThenRegister() })
 
+	c.rule("C09.V4", "every block from the start time on is searched: the switch rescanState.scanning is only ever set from startTime.Before(T) with T the timestamp of the block that is about to be delivered: in handleBlockConnected the header of the notification itself (not rs.curHeader, which is still its parent there), in rescan's catch-up loop rs.curHeader after it has been moved to the fetched header in that iteration; whoever writes the switch is tabled", func() {
+		scanning := rsF("scanning")
+		before := c.method("time", "Time", "Before")
+		ts := c.field(pWire, "BlockHeader", "Timestamp")
+		startTime := c.field("neutrino", "rescanOptions", "startTime")
+		ntfnHeader := c.method("blockntfns", "Connected", "Header")
+		// the value stored: startTime.Before(<some header>.Timestamp); returns the argument
+		argOf := func(st ssa.Instruction) ssa.Value {
+			val := ir.Strip(st.(*ssa.Store).Val)
+			call, ok := val.(*ssa.Call)
+			if k, isC := ir.ConstBool(val); isC && k {
+				// `if startTime.Before(T) { scanning = true }`
+				fn := st.Parent()
+				for _, bc := range find(fn, callTo(before)) {
+					for _, br := range ir.TrueBranches(bc.(ssa.Value)) {
+						if br.Pol >= 0 && ir.EdgeDominates(fn, br.Edge(), st.Block()) {
+							call, ok = bc.(*ssa.Call)
+						}
+					}
+				}
+			}
+			if !ok || call == nil || !callTo(before)(call) {
+				return nil
+			}
+			recv, a := recvAndArgs(call)
+			if len(a) != 1 || !loadsField(startTime)(recv) || !isLoadOfPathSuffix(a[0], ts) {
+				return nil
+			}
+			return a[0]
+		}
+		hbc := c.fn(fnHBC)
+		var bad []string
+		sts := find(hbc, storeToField(scanning))
+		for _, st := range sts {
+			a := argOf(st)
+			switch {
+			case a == nil:
+				bad = append(bad, "the switch is set at "+c.at(st)+" from something other than startTime.Before(header.Timestamp)")
+			case loadsField(rsF("curHeader"))(a) || !ir.DerivesFrom(a, valIsCallTo(ntfnHeader)):
+				bad = append(bad, "the switch is set at "+c.at(st)+" from a timestamp that is not the notified block's own (rs.curHeader is still the parent there): the first block past the start time is delivered unsearched")
+			}
+		}
+		if len(sts) == 0 {
+			bad = append(bad, "handleBlockConnected never sets the switch: a rescan started before its start time never begins to search")
+		}
+		sort.Strings(bad)
+		c.verdict(len(bad) == 0, c.nm(hbc)+" | scanning = startTime.Before(notified header's Timestamp)", c.P.Pos(hbc.Pos()), fmt.Sprintf("%d store(s), each from the notification's own header", len(sts)), join(bad), c.ats(sts)...)
+		// catch-up: from rs.curHeader, after it was moved
+		rf := c.fn(fnRescan)
+		var bad2 []string
+		curStores := storeToField(rsF("curHeader"))
+		for _, st := range find(rf, storeToField(scanning)) {
+			a := argOf(st)
+			if a == nil || !loadsField(rsF("curHeader"))(a) {
+				bad2 = append(bad2, "the switch is set at "+c.at(st)+" from something other than startTime.Before(rs.curHeader.Timestamp)")
+				continue
+			}
+			h := ir.LoopHeaderOf(st.Block())
+			if h == nil {
+				continue // the initial position
+			}
+			// inside the loop: a store to curHeader lies on every path from
+			// the loop head to this store
+			cut := ir.Cut{}
+			reached := false
+			ir.Walk(h, 0, cut, func(in ssa.Instruction) bool {
+				if curStores(in) {
+					return false
+				}
+				if in == st {
+					reached = true
+					return false
+				}
+				return ir.LoopBlocks(h)[in.Block()]
+			})
+			if reached {
+				bad2 = append(bad2, "in the catch-up loop the switch is set at "+c.at(st)+" before rs.curHeader has been moved to the fetched block")
+			}
+		}
+		sort.Strings(bad2)
+		c.verdict(len(bad2) == 0, c.nm(rf)+" | scanning = startTime.Before(rs.curHeader.Timestamp) after curHeader moved", c.P.Pos(rf.Pos()), "the switch is decided on the block about to be announced", join(bad2))
+		c.whoMay("stores into rescanState.scanning", storeToField(scanning), []string{fnHBC, fnRescan, "neutrino.newRescanState"}, 2)
+	})
+
 	c.rule("C09.V3", "no payment to a watched address is skipped: paysWatchedAddr compares the script of every output of the transaction with the script (txscript.PayToAddrScript) of every address that is on ro.watchAddrs at the time of the call (the list is read in the call itself, so addresses added by an update are seen): from each output the loop over the addresses is always entered, and each (output, address) pair reaches the bytes.Equal comparison unless deriving the script failed", func() {
 		fn := c.fn("(*neutrino.rescanOptions).paysWatchedAddr")
 		p2a := c.P.FuncObj("github.com/btcsuite/btcd/txscript/v2", "PayToAddrScript")
@@ -656,6 +740,11 @@ func isLoadOfPath(v ssa.Value, path ...*types.Var) bool {
 		cur = fa.X
 	}
 	return true
+}
+
+// isLoadOfPathSuffix: v is a load whose innermost field selections end in path.
+func isLoadOfPathSuffix(v ssa.Value, path ...*types.Var) bool {
+	return isLoadOfPath(v, path...)
 }
 
 // isWireOutPointPtr: *wire.OutPoint (the type of the address of a package
